@@ -102,11 +102,11 @@ Section Chars.
     (forall c, In c s -> is_break c = false -> Q c) -> Forall Q cur -> Forall (Forall Q) (splitlines_aux s cur b).
   Proof.
     induction s as [|c r IH]; intros cur b Hs Hc; cbn [splitlines_aux].
-    - destruct cur; [constructor|]. constructor; [|constructor]. apply Forall_rev. assumption.
+    - destruct cur; [constructor|]. constructor; [|constructor]. rewrite <- rev_alt. apply Forall_rev. assumption.
     - assert (Hr : forall x, In x r -> is_break x = false -> Q x) by (intros; apply Hs; [right|]; assumption).
       destruct (b && (c =? 10)); [apply IH; assumption|].
       destruct (is_break c) eqn:B.
-      + constructor; [apply Forall_rev; assumption | apply IH; [assumption | constructor]].
+      + constructor; [rewrite <- rev_alt; apply Forall_rev; assumption | apply IH; [assumption | constructor]].
       + apply IH; [assumption|]. constructor; [apply Hs; [left; reflexivity | assumption] | assumption].
   Qed.
 
